@@ -21,7 +21,7 @@ MSEL = mcq("MC_MaskSelect")
 #         the evidence) when the hooked harness does not build against /repo's tree -- the public-API scenarios still decide.
 #   mc:   per tier, list of (module, cfg) model-checking runs (read nothing from /repo)
 PROPS = {
-    "C01": dict(scen=[("core", "cells", True), ("core", "lengths", True), ("core", "structured", True)], mc=PIPE, invariants="RoundTripInv (MC), RoundTrip (TV)"),
+    "C01": dict(scen=[("core", "cells", True), ("core", "lengths", True), ("core", "structured", True), ("core", "discovered", False)], mc=PIPE, invariants="RoundTripInv (MC), RoundTrip (TV)"),
     "C02": dict(scen=[("core", "cells", True), ("core", "nearblocks", True), ("core", "corrupt", True), ("hooked", "tables", False)], mc=mc_join(PIPE, LEMMAS),
                 invariants="BlocksValidInv (MC), CodewordCount/RemainderBitsZero/BlockShape/SyndromesZero + Corrupt/Recover (TV), BMLemma"),
     "C03": dict(scen=[("core", "cells", True), ("hooked", "maskop", False), ("hooked", "tables", False)], mc=mc_join(PIPE, LEMMAS),
@@ -30,22 +30,22 @@ PROPS = {
                 invariants="FormatVersionTruthInv (MC), FormatCopiesExact/VersionInfoExact/ReportedFieldsTruth/ReportedModeTruth/ForcedOptionsHonoured (TV), TableLemmas (BCH distances)"),
     "C05": dict(scen=[("core", "thresholds", True), ("core", "giant", True), ("hooked", "versionget", False)], mc=mc_join(PIPE, LEMMAS),
                 invariants="MinimalVersionInv, OutcomeTotal (MC), MinimalVersion/ExpectedOutcome (TV), EncodeLemmas (monotonicity)"),
-    "C06": dict(scen=[("core", "cells", True), ("core", "lengths", True), ("core", "structured", True), ("hooked", "encode", False), ("hooked", "tables", False)], mc=PIPE,
+    "C06": dict(scen=[("core", "cells", True), ("core", "lengths", True), ("core", "structured", True), ("core", "discovered", False), ("hooked", "encode", False), ("hooked", "tables", False)], mc=PIPE,
                 invariants="DataCodewordsISOInv, StagedEqualsClosedForm (MC), DataCodewordsISO (TV)"),
     "C07": dict(scen=[("core", "cells", True), ("core", "nearblocks", True), ("hooked", "rs", False)], mc=mc_join(PIPE, LEMMAS),
                 invariants="ECIsRemainderInv (MC), ECIsRemainder/Poly/Division/DivBlock (TV), FieldLemmas"),
     "C08": dict(scen=[("core", "maskgroups", True), ("hooked", "maskop", False)], mc=mc_join(PIPE, LEMMAS),
                 invariants="MaskExactInv (MC), same-unmasked-symbol per group + MaskOp (TV), MaskLemmas"),
-    "C09": dict(scen=[("core", "modes", True), ("hooked", "bestmode", False)], mc=mc_join(PIPE, LEMMAS),
+    "C09": dict(scen=[("core", "modes", True), ("core", "discovered", False), ("hooked", "bestmode", False)], mc=mc_join(PIPE, LEMMAS),
                 invariants="AutoModeCompactInv (MC), AutoModeCompact/BestMode (TV), EncodeLemmas"),
-    "C10": dict(scen=[("core", "total", True), ("core", "aftermath", True)], mc=PIPE, invariants="OutcomeTotal (MC), Panic/Timeout outcomes match no action (TV)"),
+    "C10": dict(scen=[("core", "total", True), ("core", "aftermath", True), ("core", "discovered", False)], mc=PIPE, invariants="OutcomeTotal (MC), Panic/Timeout outcomes match no action (TV)"),
     "C11": dict(scen=[("hooked", "candidates", False), ("core", "candgroups", True)], mc=mc_join(MSEL, PIPE), apalache=["MaskSelect"],
                 invariants="MaskMinimalInv (MC_Pipeline), Minimal/IndInv (MC_MaskSelect, Apalache), chosen in argmin of Penalty over recorded candidates (TV)"),
     "C15": dict(scen=[("core", "cells", True), ("core", "callbacks", True), ("hooked", "maskop", False)], mc=mc_join(PIPE, LEMMAS),
                 invariants="LabelsExact, DataLabelCount (TV), FunctionPatternsInv (MC), LayoutLemmas"),
 }
 PROPS.update({
-    "C12": dict(scen=[("core", "svg", True), ("core", "callbacks", True), ("core", "sessions", True)], mc=mcq("MC_Render"),
+    "C12": dict(scen=[("core", "svg", True), ("core", "svgdiscovered", False), ("core", "callbacks", True), ("core", "sessions", True)], mc=mcq("MC_Render"),
                 invariants="SvgStructure/SvgBackground/SvgLayerCount/SvgCells/SvgLayerColors/SvgImage over the register machine RegsAfter(program) (TV); MC_Render: render/decode round trips of the model"),
     "C13": dict(scen=[("core", "raster", True)], mc=mcq("MC_Render"),
                 invariants="RasterSide/RasterCentres/RasterUniform/RasterPng over RegsAfter(program) (TV)"),
@@ -59,6 +59,8 @@ PROPS.update({
                 invariants="FileAllOrError (MC_FileIO, GEN -> replay), F_Run(fault, AbsOff(limit, len)) = observed return (TV); FileInd: inductive invariant for any number of chunks (Apalache)"),
 })
 # scenarios whose programs / behaviours are generated by TLC from a machine of the specification (GEN -> replay -> TV)
+# scenario -> (fuzz target, seconds per tier)
+DISCOVER = {"discovered": ("qrbuild", {"quick": 25, "thorough": 300}), "svgdiscovered": ("svgimage", {"quick": 15, "thorough": 120})}
 GEN = {"fileio": ("FileIO.tla", "MC_FileIO.cfg", False), "wasm": ("MC_Wasm.tla", "MC_Wasm_{tier}.cfg", True),
        "fileconc": ("FileIO2.tla", "MC_FileIO2.cfg", False),
        "histories": ("MC_Builder.tla", "MC_Builder_{variant}_{tier}.cfg", False),
@@ -70,7 +72,7 @@ PROPS["C14"] = dict(scen=[("core", "histories:SeqEclMask", True), ("core", "hist
 
 # what each check claims, in its own words (goes into MANIFEST.json)
 CLAIMS = {
- "C01": ("TLC model-checks the staged build machine (every option combination over a small input set, decode path against construction path) and validates Build events of the real crate: all 160 (version, level) cells x boundary lengths (capacity, capacity-1, smallest length needing the version, 0/1, half) x rotating modes and forced/automatic masks, every payload length 0..260 (0..1200 thorough) per mode, structured contents (long runs, 000/999 groups, pad look-alikes, repeated records); each symbol is decoded by the ISO reference procedure written in TLA+ (format bits, unmasking, zig-zag read-out, de-interleaving, strict single-segment parse) and must give back the input.",
+ "C01": ("TLC model-checks the staged build machine (every option combination over a small input set, decode path against construction path) and validates Build events of the real crate: all 160 (version, level) cells x boundary lengths (capacity, capacity-1, smallest length needing the version, 0/1, half) x rotating modes and forced/automatic masks, every payload length 0..260 (0..1200 thorough) per mode, structured contents (long runs, 000/999 groups, pad look-alikes, repeated records, every digit triple and alphanumeric pair, user-like and periodic contents), inputs discovered by a coverage-guided fuzzer; each symbol is decoded by the ISO reference procedure written in TLA+ (format bits, unmasking, zig-zag read-out, de-interleaving, strict single-segment parse) and must give back the input.",
          "Payload bytes are sampled (seeded); configuration cells are enumerated and counted. The decoder is the specification's own (QRDecode.tla), independent of every table of the crate."),
  "C02": ("Block count, block sizes (short blocks first), interleaving, remainder bits and all syndromes are read off every built symbol of all 160 cells and compared with the geometry-derived layout and GF(256) generated from 0x11D; Corrupt events apply seeded error patterns of weight 1, t/2 and t = floor(ec/2) per block (burst and spread) and a Berlekamp-Massey/Chien/Forney decoder written in TLA+ must recover every block; byte payloads whose data blocks mirror each other up to a compensating difference (against digest-keyed shortcuts); the crate's block-group table is judged cell by cell through the hook tier.",
          "Error patterns are sampled; the algebraic guarantee rests on the syndrome check, which is made on every block of every event. ISO Table 9 (EC codewords per block, number of blocks) is typed into the specification and cross-checked by MC_Lemmas against the geometric module count."),
@@ -80,21 +82,21 @@ CLAIMS = {
          "Payloads are short and sampled; the option lattice is enumerated on small versions only."),
  "C05": ("Version choice and error outcome of every build are compared with MinVersion derived from the bit-length formula: all 1 440 capacity thresholds (mode, level, version) x {cap-1, cap, cap+1}, every forced version x 3 lengths, the thresholds of the default level with and without a forced version, lengths up to 10^6 and inputs of 390 MB to 537 MB (4 GiB + 7000 in thorough) whose length x 8 / 10 / 11 crosses 2^32; through the hook tier the version lookup is judged for every length 0..7200 x 3 modes x 4 levels (run-length encoded, sound by the monotonicity lemma).",
          "Large symbols are judged on outcome and reported fields only in the quick tier (fully decoded in thorough). A panic or hang is an outcome that matches no action of the specification."),
- "C06": ("Data codewords read back from every built symbol, and the encoder's output alone through the hook tier (480 (version, level, mode) cells x lengths leaving 0..12 spare bits, all residues), must equal the closed-form ISO 7.4 bit stream of QREncode.tla bit for bit (mode indicator, count width per version class, group packing, terminator, zero fill, pad alternation); MC checks the staged encoder of the machine equal to the closed form.",
+ "C06": ("Data codewords read back from every built symbol, and the encoder's output alone through the hook tier (480 (version, level, mode) cells x lengths leaving 0..12 spare bits, all residues), (and of about 700 inputs per run discovered by a coverage-guided fuzzer, which finds content the crate treats specially) must equal the closed-form ISO 7.4 bit stream of QREncode.tla bit for bit (mode indicator, count width per version class, group packing, terminator, zero fill, pad alternation); MC checks the staged encoder of the machine equal to the closed form.",
          "Payload contents sampled; the count widths and mode indicators are typed into the specification."),
  "C07": ("Through the hook tier: the generator accessor for all 160 cells against generators built from their roots; remainders of b*x^k for the single-non-zero-byte basis (13 degrees x 123 powers x 8 (quick) / all 255 (thorough) byte values, each step checked as one LFSR shift of the recorded predecessor); 64 / 320 random and structured contents per (degree, block length) shape. Through the public API: every block of every built symbol is re-divided by the model.",
          "The division is GF(2)-linear, so the basis covers every content for defects that are linear; content-dependent control-flow defects are covered by the random blocks (sampled)."),
  "C08": ("For all 40 versions the same payload is built with the eight forced masks and automatic selection; un-masking each symbol with the mask named in its own format bits must give the same matrix (function modules included, format strip excluded); each mask sweep alone is judged against the Table 10 condition on blank, all-dark and random fills through the hook tier.",
          "One level per version in the quick tier (all four in thorough); payloads sampled."),
- "C09": ("Reported mode and decoded mode indicator against BestMode: all 256 byte values at every position of strings of length <= 4 and at four positions of lengths 8, 9, 16, 17, 33, with digit and alphanumeric filler; all class patterns up to length 6 / 8; long strings; valid UTF-8 texts drawn by Unicode category (digits of other scripts, other numerics, letters, white space, full-width look-alikes, zero-width characters) alone and mixed with ASCII digits and upper case; the classifier alone on 6 000 / 100 000 inputs through the hook tier. A crash of an automatic-mode build is attributed to this property when the same input builds with the most compact mode forced.",
+ "C09": ("Reported mode and decoded mode indicator against BestMode: all 256 byte values at every position of strings of length <= 4 and at four positions of lengths 8, 9, 16, 17, 33, with digit and alphanumeric filler; all class patterns up to length 6 / 8; long strings; inputs discovered by a coverage-guided fuzzer (about 700 per run, judged like any other); valid UTF-8 texts drawn by Unicode category (digits of other scripts, other numerics, letters, white space, full-width look-alikes, zero-width characters) alone and mixed with ASCII digits and upper case; the classifier alone on 6 000 / 100 000 inputs through the hook tier. A crash of an automatic-mode build is attributed to this property when the same input builds with the most compact mode forced.",
          "Long strings are sampled."),
- "C10": ("Every build runs under catch_unwind on a watchdog thread with overflow checks and debug assertions on; Panic/Timeout outcomes match no action. Covered: seeded lengths up to 8 000 (every length in thorough), the 2^16 neighbourhood, 10^5/10^6 and 390-537 MB inputs (beyond 2^32 in thorough), builds that follow a rejected or failing request on the same thread (aftermath), six content kinds, every byte value as only content, the empty input, all combinations of {unset, smallest, largest} per option.",
+ "C10": ("Every build runs under catch_unwind on a watchdog thread with overflow checks and debug assertions on; Panic/Timeout outcomes match no action. Covered: seeded lengths up to 8 000 (every length in thorough), the 2^16 neighbourhood, 10^5/10^6 and 390-537 MB inputs (beyond 2^32 in thorough), builds that follow a rejected or failing request on the same thread (aftermath), inputs discovered by a coverage-guided fuzzer, six content kinds, every byte value as only content, the empty input, all combinations of {unset, smallest, largest} per option.",
          "Non-termination is bounded by a 30 s watchdog, not proved. Memory safety is what Rust's checks plus the enabled assertions trap."),
  "C11": ("The recorder hook gives the eight candidates as the selection loop saw them; TLC computes the documented penalty of each (runs, 1011101 windows, 2x2 blocks, dark ratio; line-scan formulation proved equal to the per-cell one on sample matrices) and the emitted mask must be an arg-min; a forced mask must override. Inputs are selected for close calls (700 closest of 12 000 small symbols), uniform contents reach the highest penalties, and a steered search puts a candidate exactly on a step of the dark-ratio term (2/5 or 3/5 of the modules dark, versions whose side is a multiple of 5) while within ten points of the best other candidate. Design level: the selection loop is model-checked over all score vectors in a small range and proved for unbounded scores with Apalache. Public-API fallback: eight forced-mask builds plus the automatic one.",
          "Payload-sampled: only a flipped arg-min is observable. Ties are allowed."),
- "C12": ("MC_Render model-checks the register machine and the model's own SVG renderer (all 512 3x3 matrices x setter programs) against the same predicates; the harness generates every builder program up to length 2 (3 in thorough, sampled) over 21 abstract calls plus random longer ones, all 40 versions x 6 shapes, hand-made matrices (all dark, all light, stripes, border, sparse), custom shape callbacks, renderer sessions exported by TLC, a pool of 88 image strings (XML specials x non-ASCII in every order) and structured references (data URIs with parameters, URLs, paths) with a special inserted at every position and around every token (474 / about 3 300 documents); a roxmltree + kurbo sensor projects each document (well-formedness, viewBox, rectangles, per layer the cell of every sub-path, colours, image href) and TLC judges the projection against the register machine RegsAfter(program).",
+ "C12": ("MC_Render model-checks the register machine and the model's own SVG renderer (all 512 3x3 matrices x setter programs) against the same predicates; the harness generates every builder program up to length 2 (3 in thorough, sampled) over 21 abstract calls plus random longer ones, all 40 versions x 6 shapes, hand-made matrices (all dark, all light, stripes, border, sparse), custom shape callbacks, renderer sessions exported by TLC, a pool of 88 image strings (XML specials x non-ASCII in every order) and references discovered by a coverage-guided fuzzer, structured references (data URIs with parameters, URLs, paths) with a special inserted at every position and around every token (474 / about 3 300 documents); a roxmltree + kurbo sensor projects each document (well-formedness, viewBox, rectangles, per layer the cell of every sub-path, colours, image href) and TLC judges the projection against the register machine RegsAfter(program).",
          "XML and SVG path syntax are read by the sensor (roxmltree, kurbo), not by TLA+. hrefs are compared modulo XML attribute-value normalisation."),
- "C13": ("Pixmaps of 6 shapes x versions x margins x 6 fit modes x 4 colour pairs are projected to a palette and a per-cell palette index (plus cell uniformity at integer scale); TLC computes the expected side and premultiplied colours from the program and judges every cell centre (>= 4 px per module, or square at integer scale) and every cell of square symbols; the PNG is decoded independently and must equal the pixmap.",
+ "C13": ("Pixmaps of 6 shapes x versions x margins x 6 fit modes x 4 colour pairs are projected to a palette and a per-cell palette index (plus cell uniformity at integer scale); TLC computes the expected side and premultiplied colours from the program and judges every cell centre (>= 4 px per module, or square at integer scale) and every cell of square symbols; the PNG is decoded independently and must equal the pixmap. Also: every fit side from 4 to 8 pixels per cell on two small symbols, fit sides up to 8 250 px, margins up to 1 100 (4 096 thorough) with a windowed observation.",
          "resvg's rasterisation is observed, not modelled; translucent module colours are outside the claimed domain."),
  "C14": ("TLC explores every interleaving of setters and builds of 2 builders x 2 threads (length 4/5) and every sequential program of one builder (length 6/7), exports them, and the harness replays each on real QRBuilders with persistent worker threads; every build is judged on the registers the MODEL holds for that builder, and equal registers must give equal results across all histories; seeded concurrent programs on 1..16 threads add shared builders and all three renderers (read-only, repeatable, distinguishing different codes); renderer sessions exported by TLC from RenderSession.tla (setter calls and renderings interleaved on one builder object) must render like a fresh builder given the same calls; the histories are also replayed with option values under which one builder is REJECTED (forced mode that cannot carry its input: caught panic, no claim about that build) or fails with a documented error, and `aftermath` puts eight kinds of such disturbances between two identical requests on one thread - what follows a rejected request is judged like any other build; a soak run repeats one build and one rendering 6 000 / 70 000 times and every result must equal the first.",
          "Real OS schedules are sampled; the exhaustive interleaving is of the model, whose thread-locality is what per-thread validation binds to the code."),
@@ -288,6 +290,18 @@ def run_property(pid, tier, seed, replay=None, spec=None):
             extra += ["--grp0", str(100000 * (1 + scen_index))]
         if variant.endswith("Rejected"):      # same histories as ModeVersion, replayed with option values under which builder 1 is rejected
             extra += ["--mapping", "rejected"]
+        if scen in DISCOVER:      # coverage-guided input discovery: the fuzzer proposes inputs, the harness builds them, TLC judges them
+            target, secs = DISCOVER[scen]
+            try:
+                corpus = runner.discover(target, secs[tier], seed)
+            except ToolError as e:
+                if required:
+                    raise
+                notes.append(f"input discovery unavailable, scenario '{scen}' skipped: {str(e)[:300]}")
+                log(f"[skip] {scen}: the fuzz target did not build or run; the other scenarios decide")
+                continue
+            extra += ["--corpus", corpus]
+            gen_counts[scen] = len(os.listdir(corpus))
         if scen in GEN:
             mod, cfg, alpha = GEN[scen]
             cfg = cfg.format(tier=tier, variant=variant)
